@@ -154,8 +154,8 @@ def collect (cfg : Cfg) (s : State) : State × Option Err :=
       { s2 with records := setKey s.steps (s.agents.map (mkRow cfg.areps sn)) s2.records }
     if cfg.treps.isEmpty then (s3, none)
     else
-      let (d, e) := typeLoop cfg s cfg.treps []
-      ({ s3 with typeRecords := setKey s.steps d s3.typeRecords }, e)
+      let r := typeLoop cfg s cfg.treps []
+      ({ s3 with typeRecords := setKey s.steps r.1 s3.typeRecords }, r.2)
 
 /-- `DataCollector.add_table_row` (with the T1 repair: the row is validated before any append) -/
 def addTableRow (s : State) (t : Nat) (row : List (Nat × Val)) (ignoreMissing : Bool) : State × Option Err :=
